@@ -21,7 +21,7 @@ RULE = ("A strictly convex model over x, y, v[0..1] is drawn with 1-4 of its num
         "is a Constant holding its current value (and, for values and first derivatives, an independent float/jet "
         "interpreter).  Non-trivial = a set that changes a value is followed by an observation through something "
         "created or cached before that set (kept handle or second solve of the same Problem)."
-        "  Also: warm-started re-solves (x0 = previous solution), create-update-use episodes, a parameter next to a literal constant ((k+0.5)-0.5, (s1*2)/2), lowered switch thresholds, and an array-valued Parameter (set must take effect and must not write through to the caller's arrays).")
+        "  Also: warm-started re-solves (x0 = previous solution), create-update-use episodes, a parameter next to a literal constant ((k+0.5)-0.5, (s1*2)/2), lowered switch thresholds, and an array-valued Parameter (set must take effect and must not write through to the caller's arrays); a second model shape with a parameter times a vector reduction at the top level (q * v.dot(v) - k, r1 * sum(v) >= s1); a NumPy scalar on the left of a parameter; updates by a relative 4e-6 and to 7e-9.")
 BUDGET = {"quick": {"workers": 16, "examples": 60}, "thorough": {"workers": 16, "examples": 1500}}
 ASSUMPTIONS = ["solver comparisons use the accuracy the solvers deliver on these models (1e-5 SLSQP/L-BFGS-B, 1e-3 trust-constr/auto); "
                "parameter values are chosen so that a stale value moves the optimum by orders of magnitude more"]
@@ -29,9 +29,10 @@ MANIFEST = {
  "technique": "model-based property testing (Hypothesis): parameter-update/solve/compile histories; every observation compared with a fresh constant-parameter model and an independent interpreter",
 }
 
-SLOTS = {  # slot -> (default value, alternative values)
-    "a": (2.0, [1.0, 3.0, 2.0]), "d1": (-2.0, [4.0, 0.0, -4.0, 2.0]), "k": (1.0, [5.0, -3.0, 0.0]),
+SLOTS = {  # slot -> (default value, alternative values); 2.000008 / 1.000004 / 7e-9: updates that are tiny but not zero
+    "a": (2.0, [1.0, 3.0, 2.0, 2.000008]), "d1": (-2.0, [4.0, 0.0, -4.0, 2.0]), "k": (1.0, [5.0, -3.0, 0.0, 1.000004, 7e-9]),
     "s1": (1.0, [3.0, -1.0, 0.0]), "r1": (1.0, [2.0, 0.5]), "t": (2.0, [1.0, -2.0, 4.0]), "e0": (1.0, [-2.0, 3.0]),
+    "q": (1.0, [3.0, 0.5, 2.0]),
 }
 METHODS = ["auto", "SLSQP", "SLSQP", "trust-constr", "L-BFGS-B"]
 KINDS = ["value", "gradient", "jacobian", "hessian", "dict-function", "CompiledExpression"]
@@ -49,9 +50,21 @@ def _sq(r):
     return ["bin", "**", r, ["const", "pyint", 2]]
 
 
-def build_recipes(slot_nodes):
+def build_recipes(slot_nodes, shape="A"):
     """slot_nodes: slot -> recipe node (const / param / vparam_elem)"""
     n = slot_nodes
+    if shape == "B":
+        # a parameter times a vector reduction at the TOP LEVEL of the objective / a constraint (these nodes have
+        # derivative shortcuts of their own):  q * v.dot(v) - k   s.t.  r1 * sum(v) >= s1
+        VV = ["vvar", "v"]
+        kk = ["bin", "-", ["bin", "+", n["k"], _c(0.5)], _c(0.5)]
+        obj = ["bin", "-", ["bin", "*", n["q"], ["dotself", VV, "dot"]], kk]
+        cons = [
+            (["bin", "*", n["r1"], ["vsum", VV]], ">=", ["bin", "/", ["bin", "*", n["s1"], _c(2.0)], _c(2.0)]),
+            (["bin", "-", X, Y], ">=", _c(-3)),
+            (["bin", "+", V0, V1], "<=", _c(4)),
+        ]
+        return obj, cons
 
     def S(*ts):
         r = ts[0]
@@ -63,7 +76,9 @@ def build_recipes(slot_nodes):
     kk = ["bin", "-", ["bin", "+", n["k"], _c(0.5)], _c(0.5)]
     obj = S(["bin", "*", n["a"], _sq(X)], ["bin", "*", _c(2), _sq(Y)], ["bin", "*", X, Y],
             ["bin", "*", n["d1"], X], ["bin", "*", _c(1.5), Y], kk,
-            _sq(V0), _sq(V1), ["un", "neg", ["bin", "*", n["e0"], V0]], ["bin", "/", V1, n["t"]])
+            _sq(V0), _sq(V1),
+            # a NumPy scalar on the LEFT of the parameter: np.float64(1) * e0 must stay symbolic
+            ["un", "neg", ["bin", "*", ["bin", "*", ["const", "npfloat64", 1.0], n["e0"]], V0]], ["bin", "/", V1, n["t"]])
     cons = [
         (S(["bin", "*", n["r1"], X], Y), "<=", ["bin", "/", ["bin", "*", n["s1"], _c(2.0)], _c(2.0)]),
         (["bin", "-", X, Y], ">=", _c(-3)),
@@ -75,7 +90,11 @@ def build_recipes(slot_nodes):
 @st.composite
 def cases(draw):
     nparam = draw(st.integers(1, 4))
-    pslots = draw(st.lists(st.sampled_from(sorted(SLOTS)), min_size=nparam, max_size=nparam, unique=True))
+    shape = draw(st.sampled_from(["A", "A", "B"]))
+    pool = sorted(SLOTS) if shape == "A" else ["k", "q", "r1", "s1"]
+    pool = [s_ for s_ in pool if shape == "B" or s_ != "q"]
+    nparam = min(nparam, len(pool))
+    pslots = draw(st.lists(st.sampled_from(pool), min_size=nparam, max_size=nparam, unique=True))
     as_vec = [s for s in pslots if draw(st.booleans())][:2]  # these become elements of one VectorParameter
     use_constraints = draw(st.booleans())
     steps, nsolve, handles = [], 0, 0
@@ -108,7 +127,7 @@ def cases(draw):
             m = draw(st.sampled_from(["SLSQP", "auto", "trust-constr"]))
             steps += [["solve", m], ["set", sl, val], ["solve", m]]
             nsolve += 2
-    return {"pslots": pslots, "as_vec": as_vec, "constraints": use_constraints, "steps": steps, "deep_algorithms": draw(st.integers(0, 5)) == 0,
+    return {"pslots": pslots, "as_vec": as_vec, "constraints": use_constraints, "steps": steps, "shape": shape, "deep_algorithms": draw(st.integers(0, 5)) == 0,
             "config": draw(st.sampled_from(["default", "default", "default", "lowthr"]))}
 
 
@@ -117,7 +136,7 @@ def strategy(tier):
 
 
 def sample_repr(case):
-    return {"parameters": case["pslots"], "vector_parameter": case["as_vec"], "constraints": case["constraints"],
+    return {"shape": case.get("shape", "A"), "parameters": case["pslots"], "vector_parameter": case["as_vec"], "constraints": case["constraints"],
             "history": [" ".join(str(x) for x in s) for s in case["steps"]]}
 
 
@@ -140,7 +159,7 @@ class Model:
             else:
                 nodes[s] = _c(SLOTS[s][0])
         self.env, self.nodes = env, nodes
-        self.obj_r, self.cons_r = build_recipes(nodes)
+        self.obj_r, self.cons_r = build_recipes(nodes, case.get("shape", "A"))
         self.b = BuildAlg(env, params_as_constants=constants)
         from optyx import Problem
         self.obj = self.b.ev(self.obj_r)
